@@ -4,7 +4,7 @@
 # properties, or the ones given) against the quick check of that property and
 # appends one line per diff to /verif/selfmut/RESULTS.tsv:
 #   <Cxx> <diff> <verdict: caught|MISSED|noapply|error> <oracles> <repo commit> <seconds>
-# Diffs already listed for the current /repo commit are skipped (resumable).
+# Diffs already listed for the current /repo commit are skipped (resumable) unless SELFMUT_FORCE is set.
 cd /verif
 res=/verif/selfmut/RESULTS.tsv
 commit=$(git -C /repo rev-parse --short HEAD)
@@ -15,7 +15,7 @@ for p in $props; do
   for d in selfmut/$p/*.diff; do
     [ -f "$d" ] || continue
     name=$(basename $d)
-    grep -q "^$p	$name	[a-zA-Z]*	[^	]*	$commit	" $res && continue
+    [ -z "$SELFMUT_FORCE" ] && grep -q "^$p	$name	[a-zA-Z]*	[^	]*	$commit	" $res && continue
     t0=$(date +%s)
     out=$(VERIF_SHRINKTIME=5s tools/mutcheck.sh $d $p 2>&1)
     rc=$(echo "$out" | sed -n "s/^mutcheck: $p rc=\([0-9]*\).*/\1/p" | head -1)
